@@ -172,7 +172,10 @@ package config
 // (C18) every check of a rule {} block is built from its settings without reaching a panic in code that has no contract
 //@ func parseRule [C08, C18]
 //@   safe callee-panics panic
+// (C09) every rule {} block reaches parseRule with the match / ignore sub-blocks it was configured with: an empty
+// list means "applies to everything", so nothing may prune the lists on the way
 //@ func Config.GetChecksForEntry [C08]
+//@   at call parseRule assert [C09] arg0.Match == cfg.Rules[iter1-1].Match && arg0.Ignore == cfg.Rules[iter1-1].Ignore && arg2 == defaultStates
 
 // The enable decision. disabledByComment captures the answer of isDisabledForRule (rule-level control comments).
 // A control comment or a `disabled` entry targets a check instance in exactly three spellings: the check's name, its
@@ -336,3 +339,15 @@ package config
 //@ func PrometheusQuery.validate [C18]
 //@   ensures err == nil ==> urlParses(pq.URI)
 //@   loop 1 invariant urlParses(pq.URI)
+
+// C15 (configured order): the upstreams of a failover group are the `uri` first and then the `failover` entries in
+// the order they are written - that list order is the order FailoverGroup tries them in.
+//@ func newFailoverGroup [C15]
+// (that the include / exclude patterns compile was established by PrometheusConfig.validate at load time: A15)
+//@   assumed callee-requires config.strictRegex
+//@   at call NewPrometheus#1 assert arg1 == prom.URI
+//@   at call NewPrometheus#2 assert arg1 == prom.Failover[iter1-1] && len(upstreams) == iter1
+//@   at call NewFailoverGroup assert len(arg2) == 1 + len(prom.Failover)
+//@   loop 1 invariant 0 <= iter1 && iter1 <= len(prom.Failover) && len(upstreams) == 1 + iter1
+//@   loop 2 invariant len(upstreams) == 1 + len(prom.Failover)
+//@   loop 3 invariant len(upstreams) == 1 + len(prom.Failover)
